@@ -968,6 +968,27 @@ func (e *specEnv) call(n *ast.CallExpr) Val {
 					imp(isOldRef(bv, e.t.top(e.old)), eq(sel(cur, bv), sel(old, bv))), cur, bv))
 			}
 			return Val{tBool, []string{and(fs...)}}
+		case "preservedentries":
+			// preservedentries(m): every entry that existed in any map of m's type before still exists with the same value
+			// (maps may only have gained entries)
+			mv := e.eval(n.Args[0])
+			mt, ok := under(mv.T).(*types.Map)
+			if !ok {
+				e.errorf("preservedentries: not a map")
+				return Val{tBool, []string{"true"}}
+			}
+			dn, ds := mapDomHeap(mt)
+			e.t.nfr++
+			bm, bk := q(fmt.Sprintf("pm!q%d", e.t.nfr)), q(fmt.Sprintf("pk!q%d", e.t.nfr))
+			od := sel(sel(e.t.heapGet(e.old, dn, ds), bm), bk)
+			nd := sel(sel(e.t.heapGet(e.cur, dn, ds), bm), bk)
+			conj := []string{nd}
+			pats := []string{":pattern (" + od + ")", ":pattern (" + nd + ")"}
+			for _, c := range flatten(mt.Elem()) {
+				vn, vs := mapValHeap(mt, c.Suffix, c.Sort)
+				conj = append(conj, eq(sel(sel(e.t.heapGet(e.cur, vn, vs), bm), bk), sel(sel(e.t.heapGet(e.old, vn, vs), bm), bk)))
+			}
+			return Val{tBool, []string{fmt.Sprintf("(forall ((%s Int) (%s Int)) (! %s %s))", bm, bk, imp(and(lt("0", bm), od), and(conj...)), strings.Join(pats, " "))}}
 		case "preservedmaps":
 			// preservedmaps(m): every map (of m's type) that existed in the pre-state is unchanged
 			mv := e.eval(n.Args[0])
